@@ -84,12 +84,19 @@ def judgeLine (j : J) (op : String) (outs : List String) : J × List String :=
       match stmt with
       | .createDatabase name =>
         let n := canon name
+        -- a name that is not one plain directory name cannot be a database: refusing it is right
+        if !validDbName name then
+          (j, if out.startsWith "err" then [] else [vio j "sess:invalid-db-name-accepted" s!"op=[{short}]"])
+        else
         if j.dbs.any (·.1 == n) then
           (j, if out.startsWith "err" then [] else [vio j "sess:create-existing-db-accepted" s!"op=[{short}]"])
         else if out == "ok" then ({ j with dbs := j.dbs ++ [(n, [])] }, [])
         else (j, [vio j "sess:create-db-refused" s!"got=[{out}] op=[{short}]"])
       | .use name =>
         let n := canon name
+        if !validDbName name then
+          (j, if out.startsWith "err" then [] else [vio j "sess:invalid-db-name-accepted" s!"op=[{short}]"])
+        else
         if j.dbs.any (·.1 == n) then
           (if out == "ok" then ({ j with cur := some n }, []) else (j, [vio j "sess:use-existing-db-refused" s!"got=[{out}] op=[{short}]"]))
         else (j, if out.startsWith "err" then [] else [vio j "sess:use-missing-db-accepted" s!"op=[{short}]"])
